@@ -124,6 +124,32 @@ def round_trip(ctx, sig, tvals, little, off, rng, case):
             ctx.distinct('type_codes', c)
 
 
+def natural_round_trip(ctx, sig, py, little, off, case):
+    ctx.count('evaluations')
+    try:
+        n, chunks = M.marshal(sig, py, off, little)
+        data = b''.join(chunks)
+        n2, vals = M.unmarshal(sig, bytes(off) + data, off, little)
+    except Exception as e:
+        ctx.report(None, 'round trip of natural values %r under %r raised %r' % (py, sig, e),
+                   {'sig': sig, 'values': repr(py), 'little': little, 'offset': off}, case)
+        return
+    if n2 != n or n != len(data):
+        ctx.report('decoder-count-mismatch', 'unmarshal(%r) consumed %d bytes, marshal reported %d and produced %d' % (
+            sig, n2, n, len(data)), {'sig': sig, 'values': repr(py)}, case)
+    if not plain_eq(vals, _plain(py)):
+        ctx.report('round-trip-value', 'round trip of %r under %r gave %r' % (py, sig, vals),
+                   {'sig': sig, 'in': repr(py), 'out': repr(vals), 'little': little, 'offset': off}, case)
+
+
+def _plain(v):
+    if isinstance(v, (list, tuple)):
+        return [_plain(x) for x in v]
+    if isinstance(v, dict):
+        return {k: _plain(x) for k, x in v.items()}
+    return v
+
+
 def run(ctx):
     install_monitors()
     ctx.rule = ('bounded-exhaustive: every valid signature over alphabet %r up to length %d x 2 byte orders x offsets '
@@ -159,6 +185,20 @@ def run(ctx):
         if ctx.stop_early() or (i % 256 == 0 and ctx.out_of_time()):
             break
     ctx.count('random_cases', done)
+    # variants holding natural Python containers whose elements share a base type but not a class (int then bool, str
+    # then ObjectPath, int then Byte ...): conforming values of 'v' / 'a{sv}' / '(vi)'; they must come back equal
+    from checks.c19 import mixed_int_family, mixed_str_family
+    for i in range(600 if ctx.tier == 'quick' else 20000 // sn):
+        idx = i * sn + si
+        r = CC.case_rng(ctx.seed, 'natural', str(idx))
+        fam = mixed_int_family(r) if r.random() < 0.6 else mixed_str_family(r)
+        fam.sort(key=lambda x: type(x).__mro__.__len__())        # plain base-class values first, subclasses last
+        if r.random() < 0.3:
+            r.shuffle(fam)
+        content = fam if r.random() < 0.5 else {'k%d' % j: x for j, x in enumerate(fam)}
+        sig, py = r.choice([('v', [content]), ('a{sv}', [{'a': content, 'b': 7}]), ('(vi)', [(content, 5)])])
+        natural_round_trip(ctx, sig, py, r.random() < 0.5, r.choice([0, 1, 4, 7]), {'stream': 'natural', 'idx': idx})
+    ctx.count('natural_variant_cases', i + 1)
     ctx.note('level_monitor', {'marshal_levels_checked': _mon['marshal_levels'],
                                'unmarshal_levels_checked': _mon['unmarshal_levels'],
                                'skipped_unexpected_shape': _mon['skipped']})
